@@ -6,6 +6,7 @@ import Desert.Own
 import Desert.Evolution
 import Desert.DeclWF
 import Desert.DecWF
+import Desert.FastCtx
 import Desert.AlignDiag
 import Desert.Normalize
 /-!
@@ -20,6 +21,14 @@ def showOutcomeBytes : Outcome Bytes → String
   | .panic w => s!"panic {w}"
 
 def decResponse (env : Env) (ty : Ty) (b : Bytes) : String :=
+  if b.length > 4096 then
+    -- large inputs (the golden file): the array-backed faithful context, proved equal to `decodeTop`
+    -- (`decodeTopFast_eq`); the abstract run is not repeated — for these inputs `C06.decode_honest_total` stands in
+    match decodeTopFast env ty b.toArray with
+    | .ok (v, c) => s!"ok {showVal v} {c.cur.pos} abs=by-theorem"
+    | .err e => s!"err {showErr e} abs=by-theorem"
+    | .panic w => s!"panic {w} abs=by-theorem"
+  else
   let r1 := decodeTop env ty b
   let r2 := decodeAbs env ty b
   let s1 := match r1 with
